@@ -81,7 +81,7 @@ class Contract:
                            head=list(v.get("head", [])), abstract=v.get("abstract", False), cases=v.get("cases", False),
                            at_exit=[Clause(c) for c in v.get("at_exit", [])],
                            independent=v.get("independent", False), carried_ok=set(v.get("carried_ok", [])),
-                           append_only=set(v.get("append_only", [])))
+                           append_only=set(v.get("append_only", [])), stop_at_exit=v.get("stop_at_exit", False))
     self.total = g("total", False)          # implicit exceptions are obligations (C18)
     self.total_props = set(g("total_props", ["C18"]))
     self.assumed = g("assumed", False)      # body not verified (out of reach): used by callers, listed as assumption
